@@ -614,8 +614,9 @@ async fn run_case(c: Case) -> String {
         hex_bytes(&types::body_result_rows(&r, false)[..px])
     };
     let nmarkers = res.len() as i64;
-    // pool-level events in the mock's global order: a = handshake done, g = a request frame arrived,
-    // b = the connection broke (mock cut / stall / closed by the client)
+    // pool-level events in the mock's global order: a = handshake done (STARTUP answered), g = a request
+    // frame arrived, b = the mock logged Close for a connection that had completed its handshake (whoever
+    // closed it; a stall alone is no b, a connection that never started gets none)
     let mut pool: Vec<String> = Vec::new();
     let mut broke: std::collections::HashSet<u64> = std::collections::HashSet::new();
     let mut conns: Vec<(usize, u64, Vec<String>, bool, i64)> = Vec::new(); // node, id, events, started, next synthetic rid
@@ -864,7 +865,20 @@ fn main() {
     let args = parse_args();
     let thorough = args.tier == "thorough";
     let cases: Vec<Case> = match &args.replay {
-        Some(p) => read_cases(p).iter().filter_map(|l| Case::parse(l)).collect(),
+        // A violation found by a burst case is the outcome of a race (submit vs. teardown): one
+        // re-execution reproduces it only rarely.  C10_REPLAY_REPEAT=<k> re-executes every burst case of a
+        // replay k times (one output line each); default 1, so the corpus run of a check is unchanged.
+        Some(p) => {
+            let k: usize = std::env::var("C10_REPLAY_REPEAT").ok().and_then(|s| s.parse().ok()).unwrap_or(1).clamp(1, 1000);
+            read_cases(p)
+                .iter()
+                .filter_map(|l| Case::parse(l))
+                .flat_map(|c| {
+                    let r = if c.fault.starts_with("burst") { k } else { 1 };
+                    std::iter::repeat(c).take(r)
+                })
+                .collect()
+        }
         None => gen_cases(args.seed, args.n, thorough),
     };
     let par: usize = std::env::var("C10_PAR").ok().and_then(|s| s.parse().ok()).unwrap_or(12);
